@@ -1,6 +1,7 @@
 import WhVerif.Util.Proto
 import WhVerif.Model.C19
 import WhVerif.Model.C19Edit
+import WhVerif.Model.C19Word
 import WhVerif.Spec.C19
 namespace WhVerif.Driver.C19
 open Lean WhVerif.Proto WhVerif.C19
@@ -19,8 +20,94 @@ def genoJson (g : Genotype) : Json :=
   Json.mkObj [("vector", ofNatList g.asVector), ("index", ofNat g.getIndex), ("ploidy", ofNat g.getPloidy),
     ("state", ofNatList [st.1, st.2]), ("restored", restored)]
 
+def cerrJson : CErr → Json
+  | .ploidy => Json.mkObj [("err", Json.str "ploidy")]
+  | .alleles => Json.mkObj [("err", Json.str "alleles")]
+  | .unsorted => Json.mkObj [("err", Json.str "unsorted")]
+  | .setPos => Json.mkObj [("err", Json.str "setpos")]
+  | .setAllele => Json.mkObj [("err", Json.str "setallele")]
+  | .getPos => Json.mkObj [("err", Json.str "getpos")]
+
+/-- a natural number given as JSON number or as decimal string (for values beyond 2^53) -/
+def getBig? (j : Json) (k : String) : Option Nat :=
+  match getNat? j k with
+  | some n => some n
+  | none => match getStr? j k with | some s => s.toNat? | none => none
+
+/-- machine-level observables of a packed genotype: the 64-bit word (decimal string), `as_vector`, `get_index`
+(as executed, and on unbounded integers), ploidy, `is_none`, `is_homozygous`, `is_diploid_and_biallelic`, `toString` -/
+def wordJson (g : Genotype) : Json :=
+  Json.mkObj [("code", Json.str (toString g.gt)), ("vector", ofNatList g.asVector), ("index", ofNat g.getIndexW),
+    ("index_ideal", ofNat g.getIndex), ("ploidy", ofNat g.getPloidy), ("none", Json.bool g.isNone),
+    ("hom", Json.bool g.isHomozygous), ("dipbi", Json.bool g.isDiploidAndBiallelic),
+    ("str", match g.toStringL with | some l => ofNatList l | none => Json.null)]
+
+def fromIndexJson (i p : Nat) : Json :=
+  match Genotype.ofIndex i p with | .ok g => wordJson g | .error e => cerrJson e
+
 def handle (op : String) (j : Json) : Option Json :=
-  if op == "c19.binom" then
+  if op == "c19.fromindex" then
+    -- Genotype(uint64_t index, uint32_t ploidy)
+    match getBig? j "index", getNat? j "ploidy" with
+    | some i, some p => some (fromIndexJson (i % 18446744073709551616) p)
+    | _, _ => some badInput
+  else if op == "c19.enumindex" then
+    -- PhredGenotypeLikelihoods.genotypes(): first `get_genotypes` builds Genotype(i, ploidy) for every i < size (the
+    -- first throw ends it), then core.pyx rebuilds each one as `Genotype(genotype.as_vector())` (vector constructor)
+    match getNat? j "ploidy", getNat? j "size" with
+    | some p, some n =>
+      let rec phase1 (fuel i : Nat) (acc : Array Genotype) : Except CErr (Array Genotype) :=
+        match fuel with
+        | 0 => .ok acc
+        | fuel + 1 =>
+          match Genotype.ofIndex i p with
+          | .ok g => phase1 fuel (i + 1) (acc.push g)
+          | .error e => .error e
+      match phase1 n 0 #[] with
+      | .error e => some (cerrJson e)
+      | .ok gs =>
+        let rec phase2 (l : List Genotype) (acc : Array Json) : Json :=
+          match l with
+          | [] => Json.mkObj [("vectors", Json.arr acc)]
+          | g :: rest =>
+            match Genotype.ofAlleles g.asVector with
+            | .ok h => phase2 rest (acc.push (ofNatList h.asVector))
+            | .error e => errJson e
+        some (phase2 gs.toList #[])
+    | _, _ => some badInput
+  else if op == "c19.word" then
+    -- Genotype(vector) with the machine-level observers
+    match getNatList? j "alleles" with
+    | some a => some (match Genotype.ofAlleles a with | .ok g => wordJson g | .error e => errJson e)
+    | none => some badInput
+  else if op == "c19.convert" then
+    -- convert_index_to_alleles as executed, and __setstate__ on top of it
+    match getBig? j "index", getNat? j "ploidy" with
+    | some i, some p =>
+      some (Json.mkObj [("raw", ofNatList (convertW (i % 18446744073709551616) p)),
+        ("geno", match Genotype.setStateW (i % 18446744073709551616) p with | .ok g => wordJson g | .error e => errJson e)])
+    | _, _ => some badInput
+  else if op == "c19.binom32" then
+    match getInt? j "n", getInt? j "k" with
+    | some n, some k => some (ofInt (binom32 n k))
+    | _, _ => some badInput
+  else if op == "c19.cmpw" then
+    -- two genotypes given as ["a", alleles] or ["i", [index, ploidy]]: ==, !=, < as executed, and the documented order
+    let mk (k : String) : Option (Option Genotype) :=
+      match getNatList? j k, getNatList? j (k ++ "_index") with
+      | some a, _ => some (match Genotype.ofAlleles a with | .ok g => some g | .error _ => none)
+      | none, some [i, p] => some (match Genotype.ofIndex i p with | .ok g => some g | .error _ => none)
+      | _, _ => none
+    match mk "a", mk "b" with
+    | some (some g), some (some h) =>
+      some (Json.mkObj [("eq", Json.bool (g.eq h)), ("ne", Json.bool (g.ne h)), ("lt", Json.bool (g.ltW h)),
+        ("lex", Json.bool (Spec.lexLt g.asVector h.asVector))])
+    | some _, some _ => some (Json.mkObj [("err", Json.str "ctor")])
+    | _, _ => some badInput
+  else if op == "c19.limits" then
+    some (Json.mkObj [("max_ploidy", ofNat getMaxGenotypePloidy), ("max_ploidy_repaired", ofNat getMaxGenotypePloidyRepaired),
+      ("max_alleles", ofNat getMaxGenotypeAlleles)])
+  else if op == "c19.binom" then
     match getInt? j "n", getInt? j "k" with
     | some n, some k =>
       some (Json.mkObj [("value", ofInt (binomInt n k)),
